@@ -62,8 +62,14 @@ class World(object):
                 if d == 3 and gain:
                     extra += [('CytekP01G', '1.0'), ('CytekP02G', '1.0'), ('CytekP03G', '4.0')]
                     gain = None
+                kw = {}
+                if d == 1 and gain:
+                    # ... and the optional gain keyword lives in a supplemental TEXT segment stored BEFORE the primary one
+                    # (segments are located by their offsets only)
+                    kw = dict(supp_pairs=[('$P3G', gain)], stext_first=True)
+                    gain = None
                 fcsgen.write_sample(path, EVENTS, ['c1', 'c2', 'c3'], R, bits=16, pne=pne, png=[None, None, gain],
-                                    pnv=['400', '500', '600'], pns=['A', 'B', 'C'], extra=extra)
+                                    pnv=['400', '500', '600'], pns=['A', 'B', 'C'], extra=extra, **kw)
                 with warnings.catch_warnings():
                     warnings.simplefilter('ignore')
                     self.objs[(cont, d)] = FlowCal.io.FCSData(loadform.arg(path))
